@@ -1016,6 +1016,20 @@ class Engine:
         if isinstance(src, VMap):
             src = src.keys
         if isinstance(src, VSeq):
+            if kw.get("key") is None and src.shape is not None:
+                # sorted() without a key is a FUNCTION of its argument (a total order has one sorted arrangement up to equal elements, and equal
+                # elements are indistinguishable to the contracts): two calls on the same terms denote the same sequence
+                try:
+                    ck = (tuple(t.sexpr() for t in self.flatten(src)), reverse)
+                except Exception:
+                    ck = None
+                memo = self.__dict__.setdefault("_sorted_memo", {})
+                if ck is not None and ck in memo:
+                    return memo[ck]
+                out = self.sorted_model(src, None, reverse, pc, line)
+                if ck is not None:
+                    memo[ck] = out
+                return out
             return self.sorted_model(src, kw.get("key"), reverse, pc, line)
         raise Undecided(f"sorted of {type(src).__name__}", line)
 
